@@ -29,6 +29,7 @@ pub fn build<'a>(owned: &'a Owned, history: &[Event]) -> MCTPSMBusContext<'a> {
     for ev in history {
         let _ = subject::apply(&mut ctx, ev);
     }
+    subject::fire_other_ctx_hook();
     ctx
 }
 
